@@ -5,6 +5,7 @@ import random
 from vlib import common, prog
 from . import runmodeslib as L
 from . import lifecyclelib as LC
+from . import streamuselib as SU
 
 LEVEL = 'model_checking'
 
@@ -55,6 +56,9 @@ def run(ck, replay=None):
                       'process and waiter goroutines, WaitForTermination rendezvous) is model-checked for deadlock freedom, termination, sequential start and '
                       'release-once, and bound to the code: the chain programs with true/false commands run with the scheduler / process gates logged in one '
                       'total order and TLC validates every log against LifecycleTrace.tla (gates = actions, the rendezvous and the scheduler bookkeeping silent).  '
+                      'StreamUse.tla: the programs run once more with every pipe logging its own open / close / append events; TLC checks on the logs that no pipe '
+                      'is closed more often than opened (early end-of-stream for a concurrent reader), nothing is written after the last writer left, and all '
+                      'counters are back at 0 at the end.  '
                       'non-trivial = at least two concurrent stages or a conditional operator; distinct = different programs.' % K)
     ck.assumptions += ['vocabulary: a (mkarray), foreach, out, err, mtac, cast, if/else, switch, variables and string expressions, functions, try/trypipe blocks inside a stage body (abandoned after a failure, skipped || alternative), ; newline && || try trypipe - no bg, timers or randomness',
                        'at most one stage of a pipeline writes to the shared stderr (otherwise interleaving there is by design)',
@@ -153,6 +157,10 @@ def run(ck, replay=None):
                 nontriv.add(src)
                 if len(ck.cov['samples']) < 4 and kind == 'pipe' and len(c['prog']) == 1 and len(c['prog'][0]['stages']) == 3:
                     ck.sample({'src': src, 'expected_stdout': eo, 'expected_stderr': ee, 'runs': K})
+    # StreamUse.tla: how the interpreter uses its own pipes while these programs run (open/close counters, late writes, balance)
+    sujobs = [{'id': j['id'], 'src': j['src']} for j in jobs]
+    rng.shuffle(sujobs)
+    ok += SU.run_binding(ck, sujobs[:(400 if quick else 100000)], perturb=ck.seed * 1000 + 29, tag='su')
     # Lifecycle.tla bound to the real scheduler: gate logs of the chain programs (true/false commands) validated by TLC
     lcases = list(chains)
     if not quick:
